@@ -10,9 +10,9 @@ Directives.vos Directives.vok Directives.required_vos: Directives.v Ast.vos
 Erase.vo Erase.glob Erase.v.beautified Erase.required_vo: Erase.v Ast.vo Generated.vo HookSites.vo Directives.vo
 Erase.vio: Erase.v Ast.vio Generated.vio HookSites.vio Directives.vio
 Erase.vos Erase.vok Erase.required_vos: Erase.v Ast.vos Generated.vos HookSites.vos Directives.vos
-Extract.vo Extract.glob Extract.v.beautified Extract.required_vo: Extract.v Ast.vo Generated.vo Config.vo Model.vo HookSites.vo Known.vo Directives.vo Erase.vo
-Extract.vio: Extract.v Ast.vio Generated.vio Config.vio Model.vio HookSites.vio Known.vio Directives.vio Erase.vio
-Extract.vos Extract.vok Extract.required_vos: Extract.v Ast.vos Generated.vos Config.vos Model.vos HookSites.vos Known.vos Directives.vos Erase.vos
+Extract.vo Extract.glob Extract.v.beautified Extract.required_vo: Extract.v Ast.vo Generated.vo Config.vo Model.vo HookSites.vo Known.vo Directives.vo Erase.vo Sites.vo
+Extract.vio: Extract.v Ast.vio Generated.vio Config.vio Model.vio HookSites.vio Known.vio Directives.vio Erase.vio Sites.vio
+Extract.vos Extract.vok Extract.required_vos: Extract.v Ast.vos Generated.vos Config.vos Model.vos HookSites.vos Known.vos Directives.vos Erase.vos Sites.vos
 Generated.vo Generated.glob Generated.v.beautified Generated.required_vo: Generated.v 
 Generated.vio: Generated.v 
 Generated.vos Generated.vok Generated.required_vos: Generated.v 
@@ -28,6 +28,9 @@ Model.vos Model.vok Model.required_vos: Model.v Ast.vos Generated.vos Config.vos
 P_Telemetry.vo P_Telemetry.glob P_Telemetry.v.beautified P_Telemetry.required_vo: P_Telemetry.v Ast.vo Generated.vo Config.vo Model.vo
 P_Telemetry.vio: P_Telemetry.v Ast.vio Generated.vio Config.vio Model.vio
 P_Telemetry.vos P_Telemetry.vok P_Telemetry.required_vos: P_Telemetry.v Ast.vos Generated.vos Config.vos Model.vos
+Sites.vo Sites.glob Sites.v.beautified Sites.required_vo: Sites.v Ast.vo Generated.vo HookSites.vo
+Sites.vio: Sites.v Ast.vio Generated.vio HookSites.vio
+Sites.vos Sites.vok Sites.required_vos: Sites.v Ast.vos Generated.vos HookSites.vos
 Properties/C15.vo Properties/C15.glob Properties/C15.v.beautified Properties/C15.required_vo: Properties/C15.v Ast.vo Generated.vo Config.vo Model.vo P_Telemetry.vo
 Properties/C15.vio: Properties/C15.v Ast.vio Generated.vio Config.vio Model.vio P_Telemetry.vio
 Properties/C15.vos Properties/C15.vok Properties/C15.required_vos: Properties/C15.v Ast.vos Generated.vos Config.vos Model.vos P_Telemetry.vos
